@@ -199,7 +199,9 @@ def exec2 (toks : List String) : String :=
     (do
       let e' ← encOf e
       let i' ← i.toInt?
-      pure (showTerm (Enc.intoSigned e' i'))).getD "bad-op"
+      pure (match Enc.intoSignedChecked e' i' with
+        | some t => showTerm t
+        | none => "PANIC")).getD "bad-op"
   | "vect" :: kind :: k :: rest =>
     (do
       let k' ← k.toNat?
